@@ -41,6 +41,12 @@ def rule_r1(facts, rep, rid="C18-R1"):
             if _is_diverging_block(s["t"]) and guard_i is None:
                 guard_i = i
                 continue
+        # test-and-set form of the same guard: `if !set.insert(id) { return .. }` (insert returns false iff the id was already there)
+        if s.get("k") == "if" and guard_i is None and insert_i is None and s["c"].get("k") == "unary" and s["c"].get("op") == "!" and on_vis(s["c"]["e"], "insert"):
+            from .panics import _is_diverging_block
+            if _is_diverging_block(s["t"]):
+                guard_i = insert_i = i
+                continue
         if any(on_vis(x, "insert") for x in fb.walk(s)) and insert_i is None:
             insert_i = i
         if any(on_vis(x, "remove") for x in fb.walk(s)):
@@ -60,7 +66,7 @@ def rule_r1(facts, rep, rid="C18-R1"):
     if not rec_is:
         probs.append("no recursive call found")
     if not probs:
-        if not (guard_i < insert_i):
+        if not (guard_i <= insert_i):
             probs.append("insert precedes the contains-guard")
         if not (insert_i < min(rec_is)):
             probs.append("a recursive call is evaluated before the node is inserted into the visited set")
@@ -152,9 +158,20 @@ def _base_local(e):
     return None
 
 
-def _direct_pos(c, e):
+def _direct_pos(c, e, depth=0):
+    """Pattern position of the base local of `e`; a local destructured out of a closure parameter (`let (p, r) = a;`, or the parameter of an
+    inlined helper bound to `a`) gets the composed position `cp0>tuple.1`."""
     b = _base_local(e)
-    return c.pos.get(b["id"], "") if b is not None else ""
+    if b is None:
+        return ""
+    pos = c.pos.get(b["id"], "")
+    if not pos.startswith("cp") and depth < 4:
+        bd = c.binds.get(b["id"])
+        if bd and bd[0] == "expr" and bd[1] is not None:
+            outer = _direct_pos(c, bd[1], depth + 1)
+            if outer.startswith("cp"):
+                return outer + (">" + pos if pos else "")
+    return pos
 
 
 def _closure_param_index(c, e):
@@ -190,7 +207,8 @@ def rule_r4(facts, rep, rid="C18-R4"):
     if not pars:
         rep.anchor_missing(rid, "iteration over self.paths in global_search")
         return
-    chain = chain_up(c, pars[0])
+    from .common import value_chain, through_lets
+    chain = value_chain(c, pars[0])
     names = [m["name"] for m in chain]
     key = f.def_ + "|sorted-then-truncated-to-100"
     srt = [i for i, n in enumerate(names) if n in ("sorted_by", "sorted_by_key", "sorted")]
@@ -211,13 +229,13 @@ def rule_r4(facts, rep, rid="C18-R4"):
         iff = None
         if body is not None:
             for x in fb.walk(body):
-                if x.get("k") == "if" and any(y.get("k") == "mcall" and y["name"] == "is_empty" and ("param", pname(f, 1)) in c.vprov(y["recv"]) for y in fb.walk(x["c"])):
+                if x.get("k") == "if" and any(y.get("k") == "mcall" and y["name"] == "is_empty" and ("param", pname(f, 1)) in c.vprov(y["recv"]) for y in fb.walk(through_lets(c, x["c"]))):
                     iff = x
                     break
         if iff is None:
             rep.violation(rid, f.def_ + "|comparator-branches-on-empty-query", "comparator no longer distinguishes the empty query", f.loc)
         else:
-            negated = any(y.get("k") == "unary" and y.get("op") == "!" for y in fb.walk(iff["c"]))
+            negated = any(y.get("k") == "unary" and y.get("op") == "!" for y in fb.walk(through_lets(c, iff["c"])))
             empty_b, other_b = (iff["e"], iff["t"]) if negated else (iff["t"], iff["e"])
             ce = _first_cmp(empty_b)
             co = _first_cmp(other_b)
@@ -269,8 +287,14 @@ def rule_r5(facts, rep, rid="C18-R5"):
             continue
         chain = chain_up(c, ids[0])
         names = [m["name"] for m in chain]
-        bad = [n for n in names if n in ("rev", "skip", "filter", "take", "step_by", "skip_while", "take_while", "sorted", "unique", "dedup", "filter_map")]
         gt = any(q.has_call(c.mentions(m), "GraphContext::get_text") for m in chain if m["name"] == "map")
+        from .common import loop_as_chain
+        lp = loop_as_chain(c, f, ids[0])
+        if lp is not None:
+            # `for id in path.ids() { out.push(get_text(id)) }; out.join(..)` is the same enumeration written as a loop
+            names, mapped = lp
+            gt = any(q.has_call(c.mentions(m), "GraphContext::get_text") for m in mapped)
+        bad = [n for n in names if n in ("rev", "skip", "filter", "take", "step_by", "skip_while", "take_while", "sorted", "unique", "dedup", "filter_map")]
         if bad or not gt or "join" not in names:
             rep.violation(rid, f.def_ + "|renders-ids-in-order", "symbol name is not `ids().iter().map(get_text).join(..)` in order: chain %s" % names, loc(f, ids[0]))
         else:
